@@ -40,6 +40,14 @@ CLAIMS["C01"] = ("MIR call-resolution and dataflow on the merge coordinator: res
     "structure of the merge, not that each reader yields its own messages in order, and not any concrete output.",
     "DESIGN.md §3 C01")
 
+CLAIMS["C06"] = ("typestate dataflow fixpoint of the worker protocol over the MIR CFG of each worker function (with dispatcher guarantees proved from the dispatch match), classification of the coordinator loop's exit edges by the provenance of their branch conditions, call-graph reachability for registry access, guard-kind provenance at the select call",
+    "Static necessary-condition check of the coordination protocol: on every CFG path each worker sends FileInfo before anything else and nothing "
+    "after FileSummary and cannot return before FileInfo; the coordinator leaves its loop only on registry-empty / recv None / EXIT_EARLY and "
+    "removes a channel on FileSummary and on RecvError; workers never touch the registry; select blocks under a read guard; joins come after "
+    "the registry is cleared; stateful colour assignment precedes thread start. Structural deadlock/termination argument, not a model of the "
+    "OS scheduler; reader-internal loops are not decided.",
+    "DESIGN.md §3 C06")
+
 NA_REASON = {}
 
 checks = []
